@@ -31,7 +31,8 @@ func (p *Prog) Func(pkgSuffix, recv, name string) *ssa.Function {
 			return f
 		}
 	}
-	return nil
+	/* Not under that name: under another? */
+	return p.renamedFunc(path, recv, name)
 }
 
 // recvTypeName returns the name of f's receiver's named type, or "".
@@ -325,7 +326,7 @@ func (p *Prog) Field(pkgSuffix, typ, name string) *types.Var {
 			return st.Field(i)
 		}
 	}
-	return nil
+	return renamedField(pk.PkgPath, typ, st, name)
 }
 
 // stripConv removes value-preserving wrappers: ChangeType, MakeInterface,
@@ -443,7 +444,8 @@ func paramNamed(fn *ssa.Function, name string) *ssa.Parameter {
 			return p
 		}
 	}
-	return nil
+	/* Called something else now?  The parameter in that place. */
+	return refParam(fn, name)
 }
 
 // posOf gives the best position available for an instruction.
